@@ -196,13 +196,13 @@ PROPS = {
         "assumptions": ['apint 0.2.0 contracts (shim/apint.rs, shim/apint_ops.rs) and the gcd crate contract (shim/gcd.rs: returns the mathematical gcd; its divisibility properties are proved)', "vstd's specifications of u64::trailing_zeros / leading_zeros (assume_specification + axioms shipped with vstd)", 'derive-generated PartialEq/Clone of Interval, IntervalDomain, BitvectorDomain restated as structural equality / copy', 'rule R5 (a failing assert!/expect diverges); 64-bit usize; bit widths multiples of 8 (byte_w)'] + ["machine arithmetic: stride >= 2 ==> end - start <= i64::MAX in adjust_end/adjust_start/new (i64 subtraction); exactness of new/adjust_* for widths <= 64 bit"],
     },
     "C03": {
-        "units": ["bitvector", "interval_arith", "interval_domain", "mem_region"],
-        "level_text": "BitvectorDomain::merge, Interval::signed_merge, IntervalDomain::{signed_merge, signed_merge_and_widen, merge} are extracted verbatim and verified: the merge is well-formed, represents every value represented by either input, and is stable -- when one input's value set contains the other's, the result represents exactly that input (for the widening merge: no widening happens, proved via canonicity of intervals), for every pair of values of the same width (<= 8 bytes for the stability clauses). MemRegion::merge/merge_inner is verified against the property's cell rule (unit mem_region, see C05).",
-        "level_note": "Not covered (closure-based BTreeMap entry/retain APIs over generic value domains, string-keyed identifiers): DataDomain::merge, the Union/Intersect/MergeTop DomainMap strategies, Taint merge; the trait default AbstractDomain::merge_with (compares &mut Self with &Self through core's reference PartialEq impl, no vstd spec). The claim is for the bitvector, interval and memory-region kinds. Widening needs the machine-arithmetic side conditions merge_span <= i64::MAX when the merged stride is >= 2 and widening_delay <= i64::MAX (8-byte values only). Observation outside the quantifier: Interval::signed_merge is not stable for widths above 64 bit (start distance >= 2^64 resets the stride to 1).",
+        "units": ["bitvector", "interval_arith", "interval_domain", "mem_region", "taint"],
+        "level_text": "BitvectorDomain::merge, Interval::signed_merge, IntervalDomain::{signed_merge, signed_merge_and_widen, merge} are extracted verbatim and verified: the merge is well-formed, represents every value represented by either input, and is stable -- when one input's value set contains the other's, the result represents exactly that input (for the widening merge: no widening happens, proved via canonicity of intervals), for every pair of values of the same width (<= 8 bytes for the stability clauses). MemRegion::merge/merge_inner is verified against the property's cell rule (unit mem_region, see C05). Taint::{merge, merge_with} are verified: tainted iff either input is, stable, idempotent, merge_with agrees with merge.",
+        "level_note": "Not covered (closure-based BTreeMap entry/retain APIs over generic value domains, string-keyed identifiers): DataDomain::merge, the Union/Intersect/MergeTop DomainMap strategies; the trait default AbstractDomain::merge_with (compares &mut Self with &Self through core's reference PartialEq impl, no vstd spec). The claim is for the bitvector, interval, taint and memory-region kinds. Widening needs the machine-arithmetic side conditions merge_span <= i64::MAX when the merged stride is >= 2 and widening_delay <= i64::MAX (8-byte values only). Observation outside the quantifier: Interval::signed_merge is not stable for widths above 64 bit (start distance >= 2^64 resets the stride to 1).",
         "design_ref": "DESIGN.md section 3 (C03)",
         "default_twins": ["c03.interval_merge", "c03.domain_merge", "c03.bitvector_merge"],
         "sweep_twins": ["c03.interval_merge", "c03.domain_merge", "c03.bitvector_merge"],
-        "not_covered": ["DataDomain::merge (data/trait_impl.rs)", "DomainMap Union/Intersect/MergeTop strategies (domain_map.rs)", "Taint::merge (analysis/taint/mod.rs)", "AbstractDomain::merge_with (trait default; &mut Self vs &Self comparison has no vstd spec)"],
+        "not_covered": ["DataDomain::merge (data/trait_impl.rs)", "DomainMap Union/Intersect/MergeTop strategies (domain_map.rs)", "AbstractDomain::merge_with (trait default; &mut Self vs &Self comparison has no vstd spec)"],
         "assumptions": ['apint 0.2.0 contracts (shim/apint.rs, shim/apint_ops.rs) and the gcd crate contract (shim/gcd.rs: returns the mathematical gcd; its divisibility properties are proved)', "vstd's specifications of u64::trailing_zeros / leading_zeros (assume_specification + axioms shipped with vstd)", 'derive-generated PartialEq/Clone of Interval, IntervalDomain, BitvectorDomain restated as structural equality / copy', 'rule R5 (a failing assert!/expect diverges); 64-bit usize; bit widths multiples of 8 (byte_w)'] + ["machine arithmetic in signed_merge_and_widen: merged stride >= 2 ==> span of bounds and hints <= i64::MAX; widening_delay <= i64::MAX", "stability clauses of the interval merges for widths <= 64 bit"],
     },
     "C04": {
